@@ -510,14 +510,19 @@ fn do_remapping_loop_one_device(driver: &mut impl Driver, layout: Layout, verbos
             },
             WorkingRepeat::Repeating { keys, next_wakeup, interval_ms } => {
               if !in_tablet_mode {
+                // Leave out keys that are already held on the output (e.g. a
+                // modifier the user is holding): tapping them would release them.
+                let tap_keys: Vec<KeyCode> = keys.iter().filter(|k| !mapper.is_output_key_held(k)).map(|k| *k).collect();
                 let mut repeat_send = Vec::new();
-                for key in &keys {
+                for key in &tap_keys {
                   repeat_send.push(Pressed(*key));
                 }
-                for key in (&keys).iter().rev() {
+                for key in (&tap_keys).iter().rev() {
                   repeat_send.push(Released(*key));
                 }
-                driver.send(&repeat_send)?;
+                if !repeat_send.is_empty() {
+                  driver.send(&repeat_send)?;
+                }
                 working_repeat = WorkingRepeat::Repeating {
                   keys,
                   next_wakeup: next_wakeup + Duration::from_millis(interval_ms as u64),
